@@ -125,7 +125,7 @@ class Interleaver:
             else:
                 self.all_done.set()
 
-    def run(self, thunks: list[Callable[[], Any]], timeout: float = 120.0) -> list[_Task]:
+    def run(self, thunks: list[Callable[[], Any]], timeout: float = 900.0) -> list[_Task]:
         self.tasks = [_Task(i, th) for i, th in enumerate(thunks)]
         if not self.tasks:
             return []
